@@ -142,7 +142,8 @@ def slice_term(unit, stmts, vid, sub, idx_literal=None):
         s = strip(s)
         k = s.get('kind')
         if not writes_var(s, vid):
-            skipped.append(s)
+            if T is not None:
+                skipped.append(s)       # only what lies between the definition and its use matters
             return
         if k == 'CompoundStmt':
             for x in kids(s):
@@ -186,7 +187,7 @@ def slice_term(unit, stmts, vid, sub, idx_literal=None):
             if any(ref_id(y) == vid for y in walk(kids(inner[0])[1]) if y.get('kind') == 'DeclRefExpr'):
                 raise NotUnderstood('accumulated term mentions the accumulator')
             term = cn.e(kids(inner[0])[1])
-            hdr = '%s..%s%s/%s' % (ind['init'], ind['op'], cn.e(ind['bound_node']) if ind.get('bound_node') is not None else ind['bound'], ind['step'])
+            hdr = '%s..%s%s/%s' % (ind['init'], ind['op'], cn.e(ind['bound_expr']), ind['step'])
             depth[0] -= 1
             T = '(%s %s sum[%s](%s))' % (inner[0]['opcode'][0], T, hdr, term)
             return
